@@ -988,7 +988,13 @@ class Shape:
         if np_ == 'searchsorted':
             hay, needle = (args + [UNK, UNK])[:2]
             if isinstance(hay, Arr) and hay.axes:
-                el = Ix(Space('Ext', hay.vid, hay.axes[0]))
+                if 'sorter' in kw:
+                    # positions in the SORTED order of `hay` (an index into the sorter, not into hay)
+                    el = Ix(Space('SortedPos', hay.vid, hay.axes[0]))
+                elif hay.sorted:
+                    el = Ix(Space('Ext', hay.vid, hay.axes[0]))
+                else:
+                    el = Ix(Space('Ext', hay.vid, hay.axes[0], needs_sorted=True))
                 return Arr(needle.axes, el) if isinstance(needle, Arr) else el
             return UNK
         if np_ == 'errstate':
@@ -1309,8 +1315,8 @@ class Shape:
                 tgt = rootv
             ve = elem_of(v)
             if tgt is not None and isinstance(tgt.elem, Q) and tgt.elem.poly and isinstance(ve, (Q, Ix)) and not (isinstance(ve, Q) and ve.poly):
-                if not (isinstance(s.value, ast.Constant) if isinstance(s, ast.Assign) else False) and not (isinstance(ve, Q) and not ve.dim and not ve.tags and
-                                                                                                           isinstance(getattr(s, 'value', None), ast.Attribute)):
+                literal = isinstance(s, ast.Assign) and (isinstance(s.value, ast.Constant) or const_value(s.value) is not None)
+                if not literal and not (isinstance(ve, Q) and not ve.dim and not ve.tags and isinstance(getattr(s, 'value', None), ast.Attribute)):
                     tgt.elem = ve
             elif tgt is not None and isinstance(tgt.elem, Ix) and isinstance(ve, Ix) and tgt.elem.space is not ve.space and not is_unk(tgt.elem.space) and not is_unk(ve.space):
                 self.report('space', s, 'values of kind %s are stored into an array of %s' % (ve, tgt.elem))
